@@ -46,8 +46,8 @@ def start_attached_external(sim, num_workers: int) -> None:
 
 
 def describe(topo: dict) -> str:
-    if topo['kind'] == 'attached':
-        return f"attached/{topo['workers']}w"
+    if topo['kind'] in ('attached', 'compile'):
+        return f"{topo['kind']}/{topo['workers']}w"
     return 'detached/' + 'x'.join(str(n) for n in topo['managers'])
 
 
